@@ -260,6 +260,98 @@ pub fn decode(d: &mut crate::dec::Dec) -> Case {
     Case { tasks, tua, analysis, blocking, limit, wrap }
 }
 
+// --- scale equivariance (behaviour at large values) -----------------------------------------
+
+#[derive(Clone, Debug, Serialize, Deserialize)]
+pub struct ScaleCase {
+    pub tasks: Vec<TaskSpec>,
+    pub tua: usize,
+    pub analysis: Analysis,
+    pub blocking: u64,
+    pub limit: u64,
+    pub factor: u64,
+}
+
+fn scale_strategy(tier: Tier) -> BoxedStrategy<ScaleCase> {
+    let g = TaskGen {
+        arr: ArrGen { tmax: tier.pick(60, 150), never: true, plateau_end: true, plain_curves: true, derived: true, acp: false, loose: true, poisson: false, depth: 1 },
+        cmax: 9,
+        nmax: 4,
+        dfac: 3,
+    };
+    (
+        taskset_strategy(g),
+        0usize..4,
+        // the analyses without an epsilon-sized constant in their equations
+        proptest::sample::select(vec![Analysis::FpP, Analysis::FpFl, Analysis::EdfP, Analysis::Fifo]),
+        0u64..10,
+        prop_oneof![2 => Just(3000u64), 1 => 1u64..300],
+        proptest::sample::select(vec![1_000u64, 65_537, 10_000_000, 4_294_967_311]),
+    )
+        .prop_map(|(tasks, tua, analysis, blocking, limit, factor)| {
+            let tua = tua % tasks.len();
+            ScaleCase { tasks, tua, analysis, blocking, limit, factor }
+        })
+        .boxed()
+}
+
+/// Multiplying every time value (periods, jitters, delta-min entries, WCETs, deadlines, blocking,
+/// limit) by s multiplies the defining equations' least solutions by s, hence the bound: the naive
+/// evaluation cannot be run at 10^10, but this consequence of it can be checked there.
+fn check_scale(c: &ScaleCase) -> CheckResult {
+    let mut out = Outcome::default();
+    let f = c.factor;
+    let mut big = c.tasks.clone();
+    for t in big.iter_mut() {
+        crate::ros::stretch(&mut t.arr, f);
+        t.wcet *= f;
+        t.deadline *= f;
+        for sg in t.segs.iter_mut() {
+            *sg *= f;
+        }
+        t.max_np *= f;
+    }
+    let blocking = if c.analysis == Analysis::FpFl { Some(c.blocking) } else { None };
+    let small = guard(|| {
+        let b = build_tasks(&c.tasks);
+        Res::from(run_analysis(&c.tasks, &b, c.analysis, c.tua, c.limit, blocking, Wrap::Plain))
+    });
+    let large = guard(|| {
+        let b = build_tasks(&big);
+        Res::from(run_analysis(&big, &b, c.analysis, c.tua, c.limit * f, blocking.map(|x| x * f), Wrap::Plain))
+    });
+    let (small, large) = match (small, large) {
+        (Ok(a), Ok(b)) => (a, b),
+        (Ok(_), Err(e)) => return Err(format!("{} panicked on the system scaled by {}: {}", c.analysis.name(), f, e)),
+        _ => {
+            out.label("analysis-panicked(skipped)");
+            return Ok(out);
+        }
+    };
+    let ok = match (&small, &large) {
+        (Res::Ok(a), Res::Ok(b)) => *b == a * f,
+        (Res::Ok(_), _) | (_, Res::Ok(_)) => false,
+        _ => true,
+    };
+    if !ok {
+        return Err(format!(
+            "{}: the unscaled system gives {:?} (limit {}), the system with every time value multiplied by {} gives {:?} (limit {})",
+            c.analysis.name(),
+            small,
+            c.limit,
+            f,
+            large,
+            c.limit * f
+        ));
+    }
+    out.inner = 2;
+    out.nontrivial = small.ok().map(|r| r > c.tasks[c.tua].wcet).unwrap_or(false) && f >= 10_000_000;
+    out.label_if(small.is_err(), "err");
+    out.label_if(f > u32::MAX as u64, "factor>2^32");
+    out.label(c.analysis.name());
+    Ok(out)
+}
+
 /// exhaustive stage: every pair of sporadic tasks from a tiny parameter grid, every analysis, both
 /// choices of the analysed task, limits huge / = L / L-1
 fn exhaustive(tier: Tier, _seed: u64) -> ExtraResult {
@@ -327,13 +419,16 @@ fn exhaustive(tier: Tier, _seed: u64) -> ExtraResult {
 pub fn def() -> PropertyDef {
     PropertyDef {
         id: "C06",
-        rule: "generated: task sets of 1-4 tasks (Periodic, Sporadic with J up to 4T, plain and extrapolating bursty delta-min curves incl. plateaus, jittered / propagated / summed models; T <= 60 quick / 150 thorough, WCET <= 9, equal priorities allowed, relative deadlines up to 3T, segment vectors, floating region lengths), the analysed task, one of the nine analyses, an arbitrary blocking bound, the way the RBFs are wrapped (plain / boxed / references; FIFO: Slice / Aggregate), and a limit mode (huge, = L, L-1, = max AF, max AF - 1, absolute). Oracle: the RBFs are tabulated as black boxes from the very objects handed to the analysis; L = least x in [1,limit] with x >= total(x); for EVERY offset A in [0,L) AF = least x with x >= rhs_A(x) by linear scan; result = max_A (AF -. A) + remaining cost; Err{offset 0, limit} iff some least solution does not exist within the limit. Exact equality of Ok/Err and value. Non-trivial: Err, or L larger than the analysed task's WCET (interference or blocking present, so non-step offsets are scanned). Distinct by case JSON.".into(),
+        rule: "generated: task sets of 1-4 tasks (Periodic, Sporadic with J up to 4T, plain and extrapolating bursty delta-min curves incl. plateaus, jittered / propagated / summed models; T <= 60 quick / 150 thorough, WCET <= 9, equal priorities allowed, relative deadlines up to 3T, segment vectors, floating region lengths), the analysed task, one of the nine analyses, an arbitrary blocking bound, the way the RBFs are wrapped (plain / boxed / references; FIFO: Slice / Aggregate), and a limit mode (huge, = L, L-1, = max AF, max AF - 1, absolute). Oracle: the RBFs are tabulated as black boxes from the very objects handed to the analysis; L = least x in [1,limit] with x >= total(x); for EVERY offset A in [0,L) AF = least x with x >= rhs_A(x) by linear scan; result = max_A (AF -. A) + remaining cost; Err{offset 0, limit} iff some least solution does not exist within the limit. Exact equality of Ok/Err and value. Second sub-check (large values, where the naive scan cannot run): for the analyses whose equations contain no epsilon-sized constant (preemptive FP, floating FP with explicit blocking, preemptive EDF, FIFO) every time value incl. blocking and limit is multiplied by 10^3 / 65537 / 10^7 / 2^32+15 and the result must scale by exactly that factor (Err iff Err). Non-trivial: Err, or L larger than the analysed task's WCET (interference or blocking present, so non-step offsets are scanned). Distinct by case JSON.".into(),
         assumptions: vec![
             "the analysed task releases at least one job (number_arrivals(1) >= 1); limits >= 1".into(),
             "last segment <= WCET, segments >= 1".into(),
             "RBFs are black boxes here (steps/values are C10/C11/C16's business); direct ArrivalCurvePrefix models are excluded (known finding C11/acp-steps-leading-zero)".into(),
         ],
-        subchecks: vec![subcheck("equations", (1500, 60_000), strategy, check).with_decoder(decode, check)],
+        subchecks: vec![
+            subcheck("equations", (1500, 60_000), strategy, check).with_decoder(decode, check),
+            subcheck("scale-equivariance", (1500, 50_000), scale_strategy, check_scale),
+        ],
         extra: Some(Box::new(exhaustive)),
     }
 }
